@@ -9,5 +9,6 @@ CONSTANTS
   SerialReg = TRUE
   MaxBatch = 2
   RetryEnds = TRUE
+  MaxAck = 1
 INVARIANTS AllGone NoCrash NewestSender RetryCanEnd
 CHECK_DEADLOCK FALSE
